@@ -6,7 +6,7 @@ import json, os, shutil, subprocess, sys
 
 prop = sys.argv[1]
 suffix = sys.argv[2] if len(sys.argv) > 2 else "a"
-wtsrc = {"a": f"/tmp/seed_{prop}", "b": f"/tmp/seed2_{prop}", "c": f"/tmp/seed3_{prop}", "d": f"/tmp/seed4_{prop}", "e": f"/tmp/seed5_{prop}", "f": f"/tmp/seed6_{prop}", "g": f"/tmp/seed7_{prop}"}[suffix]
+wtsrc = {"a": f"/tmp/seed_{prop}", "b": f"/tmp/seed2_{prop}", "c": f"/tmp/seed3_{prop}", "d": f"/tmp/seed4_{prop}", "e": f"/tmp/seed5_{prop}", "f": f"/tmp/seed6_{prop}", "g": f"/tmp/seed7_{prop}", "h": f"/tmp/seed8_{prop}"}[suffix]
 src = f"{wtsrc}/seed"
 dst = f"/verif/seeded/{prop}_{suffix}"
 wt = "/tmp/vp_confirm"
